@@ -1,9 +1,93 @@
 package symgo
 
 import (
+	"fmt"
 	"go/types"
+	"hash/fnv"
+	"sort"
 	"strings"
 )
+
+// hashText renders a value structurally (pointers followed, map keys sorted, symbolic leaves by their term text).
+func hashText(sb *strings.Builder, v value, depth int) {
+	if depth > 50 {
+		sb.WriteString("<deep>")
+		return
+	}
+	switch x := v.(type) {
+	case nil:
+		sb.WriteString("nil")
+	case *Term:
+		sb.WriteString("T(" + x.smt + ")")
+	case symStr:
+		sb.WriteString(x.describe())
+		for _, c := range x.cases {
+			sb.WriteString(c.g.smt)
+		}
+		if x.itoa != nil {
+			sb.WriteString(x.itoa.smt)
+		}
+	case opaqueStr:
+		sb.WriteString("O(" + x.hint + ")")
+	case *blob:
+		sb.WriteString("B(")
+		hashText(sb, x.raw, depth+1)
+		sb.WriteString(")")
+	case iface:
+		if x.t == nil {
+			sb.WriteString("nil")
+			return
+		}
+		sb.WriteString("(" + x.t.String() + ")")
+		hashText(sb, x.v, depth+1)
+	case structure:
+		sb.WriteString("{")
+		for _, f := range x {
+			hashText(sb, f, depth+1)
+			sb.WriteString(",")
+		}
+		sb.WriteString("}")
+	case array:
+		hashText(sb, []value(x), depth+1)
+	case []value:
+		if x == nil {
+			sb.WriteString("nilslice")
+			return
+		}
+		sb.WriteString("[")
+		for _, f := range x {
+			hashText(sb, f, depth+1)
+			sb.WriteString(",")
+		}
+		sb.WriteString("]")
+	case *gomap:
+		if x == nil {
+			sb.WriteString("nilmap")
+			return
+		}
+		var parts []string
+		for k := range x.keys {
+			var p strings.Builder
+			hashText(&p, x.keys[k], depth+1)
+			p.WriteString(":")
+			hashText(&p, x.vals[k], depth+1)
+			parts = append(parts, p.String())
+		}
+		sort.Strings(parts)
+		sb.WriteString("map[" + strings.Join(parts, ";") + "]")
+	case *value:
+		if x == nil {
+			sb.WriteString("nilptr")
+			return
+		}
+		sb.WriteString("&")
+		hashText(sb, *x, depth+1)
+	case *nativeVal:
+		sb.WriteString(fmt.Sprint(x.v.Interface()))
+	default:
+		sb.WriteString(fmt.Sprintf("%T:%v", v, v))
+	}
+}
 
 // group/version by Go package path for typed API objects (what the schemes used by the operator register)
 var apiGroups = map[string][2]string{
@@ -112,6 +196,19 @@ func registerK8sIntrinsics(e *Engine) {
 	e.reg("k8s.io/client-go/util/csaupgrade.UpgradeManagedFieldsPatch", func(fr *frame, args []value) value {
 		return tuple{[]value(nil), iface{}}
 	})
+	// content hashes (spew + reflection): modelled as a function of the structural rendering of the arguments, so
+	// equal arguments give equal results; the quality of the real hash is outside every claim
+	hashIntr := func(fr *frame, args []value) value {
+		var sb strings.Builder
+		hashText(&sb, args[0], 0)
+		sb.WriteString("|")
+		hashText(&sb, args[1], 0)
+		h := fnv.New64a()
+		h.Write([]byte(sb.String()))
+		return fmt.Sprintf("h%x", h.Sum64())
+	}
+	e.reg("package-operator.run/internal/utils.ComputeFNV32Hash", hashIntr)
+	e.reg("package-operator.run/internal/utils.ComputeSHA256Hash", hashIntr)
 	e.reg("k8s.io/client-go/util/flowcontrol.(*Backoff).GC", noop)
 	e.regPrefix("(*k8s.io/client-go/util/flowcontrol.Backoff).", noop)
 	// metrics recorders
